@@ -208,3 +208,424 @@ impl VMultiMap {
         Ok(slots)
     }
 }
+
+// ---------------------------------------------------------------------------
+// H4: the storage-backed collections over a caller-owned `VStorage`, so that a
+// harness can read the records they are persisted in, drop the handles and
+// rebuild them with `from_storage`, and reopen / optimize / back up the storage
+// underneath.
+// ---------------------------------------------------------------------------
+
+macro_rules! vdbvec {
+    ($name:ident, $t:ty) => {
+        /// Public delegating wrapper around the crate private `DbVec` of this element type.
+        pub struct $name<D: StorageData>(crate::collections::vec::DbVec<$t, D>);
+
+        impl<D: StorageData> $name<D> {
+            pub fn new(storage: &mut VStorage<D>) -> Result<Self, DbError> {
+                Ok(Self(crate::collections::vec::DbVec::new(&mut storage.0)?))
+            }
+
+            pub fn from_storage(storage: &VStorage<D>, index: u64) -> Result<Self, DbError> {
+                Ok(Self(crate::collections::vec::DbVec::from_storage(
+                    &storage.0,
+                    StorageIndex(index),
+                )?))
+            }
+
+            pub fn storage_index(&self) -> u64 {
+                self.0.storage_index().0
+            }
+
+            pub fn len(&self) -> u64 {
+                self.0.len()
+            }
+
+            pub fn capacity(&self) -> u64 {
+                self.0.capacity()
+            }
+
+            pub fn push(&mut self, storage: &mut VStorage<D>, value: &$t) -> Result<(), DbError> {
+                self.0.push(&mut storage.0, value)
+            }
+
+            pub fn replace(
+                &mut self,
+                storage: &mut VStorage<D>,
+                index: u64,
+                value: &$t,
+            ) -> Result<$t, DbError> {
+                self.0.replace(&mut storage.0, index, value)
+            }
+
+            pub fn remove(&mut self, storage: &mut VStorage<D>, index: u64) -> Result<$t, DbError> {
+                self.0.remove(&mut storage.0, index)
+            }
+
+            pub fn swap(
+                &mut self,
+                storage: &mut VStorage<D>,
+                index: u64,
+                other: u64,
+            ) -> Result<(), DbError> {
+                self.0.swap(&mut storage.0, index, other)
+            }
+
+            pub fn resize(
+                &mut self,
+                storage: &mut VStorage<D>,
+                new_len: u64,
+                value: &$t,
+            ) -> Result<(), DbError> {
+                self.0.resize(&mut storage.0, new_len, value)
+            }
+
+            pub fn reserve(&mut self, storage: &mut VStorage<D>, capacity: u64) -> Result<(), DbError> {
+                self.0.reserve(&mut storage.0, capacity)
+            }
+
+            pub fn shrink_to_fit(&mut self, storage: &mut VStorage<D>) -> Result<(), DbError> {
+                self.0.shrink_to_fit(&mut storage.0)
+            }
+
+            pub fn value(&self, storage: &VStorage<D>, index: u64) -> Result<$t, DbError> {
+                self.0.value(&storage.0, index)
+            }
+
+            /// `iter().collect()`
+            pub fn values(&self, storage: &VStorage<D>) -> Vec<$t> {
+                self.0.iter(&storage.0).collect()
+            }
+
+            pub fn remove_from_storage(self, storage: &mut VStorage<D>) -> Result<(), DbError> {
+                self.0.remove_from_storage(&mut storage.0)
+            }
+        }
+    };
+}
+
+vdbvec!(VDbVecU64, u64);
+vdbvec!(VDbVecI64, i64);
+vdbvec!(VDbVecString, String);
+vdbvec!(VDbVecValue, crate::DbValue);
+vdbvec!(VDbVecKeyValue, crate::DbKeyValue);
+
+macro_rules! vmapdata {
+    ($name:ident, $k:ty, $t:ty) => {
+        /// Public delegating wrapper around the crate private `DbMapData` (the `MapData`
+        /// interface the map algorithms are written against) of these key / value types.
+        pub struct $name<D: StorageData>(crate::collections::map::DbMapData<$k, $t, D>);
+
+        impl<D: StorageData> $name<D> {
+            pub fn new(storage: &mut VStorage<D>) -> Result<Self, DbError> {
+                Ok(Self(crate::collections::map::DbMapData::new(&mut storage.0)?))
+            }
+
+            pub fn from_storage(storage: &VStorage<D>, index: u64) -> Result<Self, DbError> {
+                Ok(Self(crate::collections::map::DbMapData::from_storage(
+                    &storage.0,
+                    StorageIndex(index),
+                )?))
+            }
+
+            pub fn storage_index(&self) -> u64 {
+                self.0.storage_index().0
+            }
+
+            pub fn capacity(&self) -> u64 {
+                use crate::collections::map::MapData;
+                self.0.capacity()
+            }
+
+            pub fn len(&self) -> u64 {
+                use crate::collections::map::MapData;
+                self.0.len()
+            }
+
+            /// 0 = empty, 1 = valid, 2 = deleted
+            pub fn state(&self, storage: &VStorage<D>, index: u64) -> Result<u8, DbError> {
+                use crate::collections::map::MapData;
+                use crate::collections::map::MapValueState;
+                Ok(match self.0.state(&storage.0, index)? {
+                    MapValueState::Empty => 0,
+                    MapValueState::Valid => 1,
+                    MapValueState::Deleted => 2,
+                })
+            }
+
+            pub fn key(&self, storage: &VStorage<D>, index: u64) -> Result<$k, DbError> {
+                use crate::collections::map::MapData;
+                self.0.key(&storage.0, index)
+            }
+
+            pub fn value(&self, storage: &VStorage<D>, index: u64) -> Result<$t, DbError> {
+                use crate::collections::map::MapData;
+                self.0.value(&storage.0, index)
+            }
+
+            pub fn set_state(
+                &mut self,
+                storage: &mut VStorage<D>,
+                index: u64,
+                state: u8,
+            ) -> Result<(), DbError> {
+                use crate::collections::map::MapData;
+                use crate::collections::map::MapValueState;
+                let state = match state {
+                    0 => MapValueState::Empty,
+                    1 => MapValueState::Valid,
+                    _ => MapValueState::Deleted,
+                };
+                self.0.set_state(&mut storage.0, index, state)
+            }
+
+            pub fn set_key(
+                &mut self,
+                storage: &mut VStorage<D>,
+                index: u64,
+                key: &$k,
+            ) -> Result<(), DbError> {
+                use crate::collections::map::MapData;
+                self.0.set_key(&mut storage.0, index, key)
+            }
+
+            pub fn set_value(
+                &mut self,
+                storage: &mut VStorage<D>,
+                index: u64,
+                value: &$t,
+            ) -> Result<(), DbError> {
+                use crate::collections::map::MapData;
+                self.0.set_value(&mut storage.0, index, value)
+            }
+
+            pub fn set_len(&mut self, storage: &mut VStorage<D>, len: u64) -> Result<(), DbError> {
+                use crate::collections::map::MapData;
+                self.0.set_len(&mut storage.0, len)
+            }
+
+            pub fn resize(&mut self, storage: &mut VStorage<D>, capacity: u64) -> Result<(), DbError> {
+                use crate::collections::map::MapData;
+                self.0.resize(&mut storage.0, capacity)
+            }
+
+            pub fn swap(
+                &mut self,
+                storage: &mut VStorage<D>,
+                index: u64,
+                other: u64,
+            ) -> Result<(), DbError> {
+                use crate::collections::map::MapData;
+                self.0.swap(&mut storage.0, index, other)
+            }
+
+            pub fn shrink_to_fit(&mut self, storage: &mut VStorage<D>) -> Result<(), DbError> {
+                use crate::collections::map::MapData;
+                self.0.shrink_to_fit(&mut storage.0)
+            }
+
+            pub fn remove_from_storage(self, storage: &mut VStorage<D>) -> Result<(), DbError> {
+                use crate::collections::map::MapData;
+                self.0.remove_from_storage(&mut storage.0)
+            }
+        }
+    };
+}
+
+vmapdata!(VMapDataU64, u64, u64);
+vmapdata!(VMapDataStr, String, u64);
+
+/// Public delegating wrapper around the crate private `MultiMapStorage<u64, u64, D>`
+/// over a caller-owned storage (`VMultiMap` owns a private memory storage).
+pub struct VMultiMapOn<D: StorageData>(
+    crate::collections::multi_map::MultiMapStorage<u64, u64, D>,
+);
+
+impl<D: StorageData> VMultiMapOn<D> {
+    pub fn new(storage: &mut VStorage<D>) -> Result<Self, DbError> {
+        Ok(Self(crate::collections::multi_map::MultiMapStorage::new(
+            &mut storage.0,
+        )?))
+    }
+
+    pub fn from_storage(storage: &VStorage<D>, index: u64) -> Result<Self, DbError> {
+        Ok(Self(
+            crate::collections::multi_map::MultiMapStorage::from_storage(
+                &storage.0,
+                StorageIndex(index),
+            )?,
+        ))
+    }
+
+    pub fn storage_index(&self) -> u64 {
+        self.0.storage_index().0
+    }
+
+    pub fn capacity(&self) -> u64 {
+        self.0.capacity()
+    }
+
+    pub fn len(&self) -> u64 {
+        self.0.len()
+    }
+
+    pub fn insert(&mut self, storage: &mut VStorage<D>, key: u64, value: u64) -> Result<(), DbError> {
+        self.0.insert(&mut storage.0, &key, &value)
+    }
+
+    pub fn insert_or_replace(
+        &mut self,
+        storage: &mut VStorage<D>,
+        key: u64,
+        only: Option<u64>,
+        value: u64,
+    ) -> Result<Option<u64>, DbError> {
+        self.0
+            .insert_or_replace(&mut storage.0, &key, |v| only.is_none_or(|x| *v == x), &value)
+    }
+
+    pub fn remove_key(&mut self, storage: &mut VStorage<D>, key: u64) -> Result<(), DbError> {
+        self.0.remove_key(&mut storage.0, &key)
+    }
+
+    pub fn remove_value(
+        &mut self,
+        storage: &mut VStorage<D>,
+        key: u64,
+        value: u64,
+    ) -> Result<(), DbError> {
+        self.0.remove_value(&mut storage.0, &key, &value)
+    }
+
+    pub fn reserve(&mut self, storage: &mut VStorage<D>, capacity: u64) -> Result<(), DbError> {
+        self.0.reserve(&mut storage.0, capacity)
+    }
+
+    pub fn shrink_to_fit(&mut self, storage: &mut VStorage<D>) -> Result<(), DbError> {
+        self.0.shrink_to_fit(&mut storage.0)
+    }
+
+    pub fn value(&self, storage: &VStorage<D>, key: u64) -> Result<Option<u64>, DbError> {
+        self.0.value(&storage.0, &key)
+    }
+
+    pub fn values(&self, storage: &VStorage<D>, key: u64) -> Result<Vec<u64>, DbError> {
+        self.0.values(&storage.0, &key)
+    }
+
+    /// `iter().collect()`: the valid slots in slot order
+    pub fn iter(&self, storage: &VStorage<D>) -> Vec<(u64, u64)> {
+        self.0.iter(&storage.0).collect()
+    }
+
+    /// (state, key, value) of every slot; state 0 = empty, 1 = valid, 2 = deleted.
+    pub fn slots(&self, storage: &VStorage<D>) -> Result<Vec<(u8, u64, u64)>, DbError> {
+        use crate::collections::map::MapData;
+        use crate::collections::map::MapValueState;
+
+        let mut slots = Vec::with_capacity(self.0.capacity() as usize);
+
+        for i in 0..self.0.capacity() {
+            let state = match self.0.data.state(&storage.0, i)? {
+                MapValueState::Empty => 0,
+                MapValueState::Valid => 1,
+                MapValueState::Deleted => 2,
+            };
+            slots.push((
+                state,
+                self.0.data.key(&storage.0, i)?,
+                self.0.data.value(&storage.0, i)?,
+            ));
+        }
+
+        Ok(slots)
+    }
+}
+
+/// The four slot arrays of the graph.
+#[derive(Clone, Copy, Debug, Eq, PartialEq)]
+pub enum VGraphField {
+    From,
+    To,
+    FromMeta,
+    ToMeta,
+}
+
+/// Public delegating wrapper around the crate private `GraphDataStorage`
+/// (the `GraphData` interface the graph algorithms are written against).
+pub struct VGraphData<D: StorageData>(crate::graph::GraphDataStorage<D>);
+
+impl<D: StorageData> VGraphData<D> {
+    pub fn new(storage: &mut VStorage<D>) -> Result<Self, DbError> {
+        Ok(Self(crate::graph::GraphDataStorage::new(&mut storage.0)?))
+    }
+
+    pub fn from_storage(storage: &VStorage<D>, index: u64) -> Result<Self, DbError> {
+        Ok(Self(crate::graph::GraphDataStorage::from_storage(
+            &storage.0,
+            StorageIndex(index),
+        )?))
+    }
+
+    pub fn storage_index(&self) -> u64 {
+        self.0.verif_storage_index().0
+    }
+
+    pub fn capacity(&self) -> Result<u64, DbError> {
+        use crate::graph::GraphData;
+        self.0.capacity()
+    }
+
+    pub fn get(&self, storage: &VStorage<D>, field: VGraphField, index: i64) -> Result<i64, DbError> {
+        use crate::graph::GraphData;
+        let index = crate::graph::GraphIndex(index);
+        match field {
+            VGraphField::From => self.0.from(&storage.0, index),
+            VGraphField::To => self.0.to(&storage.0, index),
+            VGraphField::FromMeta => self.0.from_meta(&storage.0, index),
+            VGraphField::ToMeta => self.0.to_meta(&storage.0, index),
+        }
+    }
+
+    pub fn set(
+        &mut self,
+        storage: &mut VStorage<D>,
+        field: VGraphField,
+        index: i64,
+        value: i64,
+    ) -> Result<(), DbError> {
+        use crate::graph::GraphData;
+        let index = crate::graph::GraphIndex(index);
+        match field {
+            VGraphField::From => self.0.set_from(&mut storage.0, index, value),
+            VGraphField::To => self.0.set_to(&mut storage.0, index, value),
+            VGraphField::FromMeta => self.0.set_from_meta(&mut storage.0, index, value),
+            VGraphField::ToMeta => self.0.set_to_meta(&mut storage.0, index, value),
+        }
+    }
+
+    pub fn free_index(&self, storage: &VStorage<D>) -> Result<i64, DbError> {
+        use crate::graph::GraphData;
+        self.0.free_index(&storage.0)
+    }
+
+    pub fn node_count(&self, storage: &VStorage<D>) -> Result<u64, DbError> {
+        use crate::graph::GraphData;
+        self.0.node_count(&storage.0)
+    }
+
+    pub fn set_node_count(&mut self, storage: &mut VStorage<D>, count: u64) -> Result<(), DbError> {
+        use crate::graph::GraphData;
+        self.0.set_node_count(&mut storage.0, count)
+    }
+
+    pub fn grow(&mut self, storage: &mut VStorage<D>) -> Result<(), DbError> {
+        use crate::graph::GraphData;
+        self.0.grow(&mut storage.0)
+    }
+
+    pub fn shrink_to_fit(&mut self, storage: &mut VStorage<D>) -> Result<(), DbError> {
+        use crate::graph::GraphData;
+        self.0.shrink_to_fit(&mut storage.0)
+    }
+}
